@@ -797,16 +797,18 @@ var rR23c = RuleRef{Name: "R23c", Doc: "replies stay in request order in cluster
 		if fn == nil || fn.Blocks == nil || fn.Signature.Recv() == nil || !isRendezvousTable(fn.Signature.Recv().Type()) {
 			return false
 		}
-		for _, b := range fn.Blocks {
-			for _, in := range b.Instrs {
-				switch x := in.(type) {
-				case *ssa.MapUpdate:
-					if what == "insert" {
-						return true
-					}
-				case *ssa.Call:
-					if bi, ok := x.Call.Value.(*ssa.Builtin); ok && bi.Name() == "delete" && what == "delete" {
-						return true
+		for _, body := range append([]*ssa.Function{fn}, fn.AnonFuncs...) {
+			for _, b := range body.Blocks {
+				for _, in := range b.Instrs {
+					switch x := in.(type) {
+					case *ssa.MapUpdate:
+						if what == "insert" {
+							return true
+						}
+					case *ssa.Call:
+						if bi, ok := x.Call.Value.(*ssa.Builtin); ok && bi.Name() == "delete" && what == "delete" {
+							return true
+						}
 					}
 				}
 			}
